@@ -127,14 +127,46 @@ pub fn adt_def(u: &Universe, d: &AdtDef) -> String {
     }
     let mut s = String::new();
     let copy = if d.is_zero() { ", Copy" } else { "" };
-    let _ = writeln!(s, "#[derive(epserde::Epserde, Clone, Debug{})]", copy);
-    for r in &d.reprs {
-        let _ = writeln!(s, "#[repr({})]", r);
+    // the attributes appear in one of four arrangements (chosen by the name, so that a definition is always
+    // rendered in the same way): the macro must not depend on their position or on what stands between them
+    let style = crate::mix_seed(&["attr-style", &d.name, &d.module], 0) % 4;
+    let derive = format!("#[derive(epserde::Epserde, Clone, Debug{})]\n", copy);
+    let mut reprs = String::new();
+    for (k, r) in d.reprs.iter().enumerate() {
+        if style == 3 && k > 0 {
+            reprs.push_str("#[allow(dead_code)]\n");
+        }
+        let _ = writeln!(reprs, "#[repr({})]", r);
     }
-    match d.copy {
-        CopyKind::Zero => s.push_str("#[zero_copy]\n"),
-        CopyKind::DeepAttr => s.push_str("#[deep_copy]\n"),
-        CopyKind::DeepPlain => {}
+    let kind = match d.copy {
+        CopyKind::Zero => "#[zero_copy]\n",
+        CopyKind::DeepAttr => "#[deep_copy]\n",
+        CopyKind::DeepPlain => "",
+    };
+    match style {
+        0 => {
+            s.push_str(&derive);
+            s.push_str(&reprs);
+            s.push_str(kind);
+        }
+        1 => {
+            s.push_str(&derive);
+            s.push_str(kind);
+            s.push_str(&reprs);
+        }
+        2 => {
+            s.push_str(&reprs);
+            s.push_str(&derive);
+            s.push_str(kind);
+        }
+        _ => {
+            s.push_str("/// Generated definition.\n");
+            s.push_str(&derive);
+            s.push_str("#[allow(dead_code, clippy::all)]\n");
+            s.push_str(&reprs);
+            s.push_str("/// (attributes interleaved with comments)\n");
+            s.push_str(kind);
+        }
     }
     let kw = if matches!(d.body, Body::Struct(_)) { "struct" } else { "enum" };
     let _ = write!(s, "pub {} {}", kw, d.name);
